@@ -37,7 +37,7 @@ def big_cases():
 
 def gen_cases(tier, seed):
     rnd = random.Random(seed)
-    n = 20000 if tier == "quick" else 400000
+    n = 20000 if tier == "quick" else 1500000
     cases, tags = [], []
 
     def add(tag, text, feat=None):
